@@ -72,8 +72,8 @@ def spec_for(est, rng, seed, tag):
     n, p = int(rng.integers(12, 36)), int(rng.integers(4, 12))
     if est == "GroupLasso":
         p = int(rng.choice([4, 6, 8, 12]))
-    storage = str(rng.choice(["dense", "csc", "float32"])) if est not in ("SqrtLasso", "IterativeReweightedL1", "MultiTaskLasso") \
-        else "dense"
+    storage = str(rng.choice(["dense", "csc", "float32", "csc_explicit0"])) \
+        if est not in ("SqrtLasso", "IterativeReweightedL1", "MultiTaskLasso") else "dense"
     target = {"SparseLogisticRegression": "pm1", "LinearSVC": "pm1", "CoxEstimator": "surv", "MultiTaskLasso": "multi"}.get(est, "real")
     kw = dict(tol=1e-6)
     a = float(rng.choice([0.02, 0.1, 0.3]))
@@ -96,8 +96,11 @@ def spec_for(est, rng, seed, tag):
         kw.update(alpha=0.4)
     if est == "IterativeReweightedL1":
         kw = dict(alpha=a)
+    dens = float(rng.choice([1.0, 0.6]))
+    if storage == "csc_explicit0":
+        dens = 0.6          # stored zeros that a "clean-up" of the caller's matrix would remove
     return dict(estimator=est, kwargs=kw, seed=seed, data=[tag], n=n, p=p, xkind=str(rng.choice(["gauss", "ar"])),
-                density=float(rng.choice([1.0, 0.6])), target=target, storage=storage, n_tasks=2)
+                density=dens, target=target, storage=storage, n_tasks=2)
 
 
 def run_shard(spec, emit):
@@ -148,7 +151,7 @@ def args_shard(spec, emit):
                     est.fit(X, y)
                     d2, v2 = PB.model_digest(est)
                     # (the CSC group Lipschitz constants come from a randomly started power method: equal up to the solver tolerance)
-                    same = d1 == d2 or (est_name == "GroupLasso" and ps["storage"] == "csc" and all(
+                    same = d1 == d2 or (est_name == "GroupLasso" and ps["storage"].startswith("csc") and all(
                         np.allclose(v1[k], v2[k], rtol=1e-3, atol=1e-4) for k in v1))   # both fits stop at tol=1e-6
                     if not same:
                         viols.append(dict(mechanism="second-fit-differs-from-first", estimator=est_name, storage=ps["storage"],
@@ -168,7 +171,7 @@ def args_shard(spec, emit):
                         est_b.fit(Xo, yo)
                         est_b.fit(X, y)
                         d3, v3 = PB.model_digest(est_b)
-                        same = d1 == d3 or (est_name == "GroupLasso" and ps["storage"] == "csc" and all(
+                        same = d1 == d3 or (est_name == "GroupLasso" and ps["storage"].startswith("csc") and all(
                             np.allclose(v1[k], v3[k], rtol=1e-3, atol=1e-4) for k in v1))
                         if not same:
                             viols.append(dict(mechanism="fit-after-other-data-differs-from-fresh-fit", estimator=est_name,
@@ -221,7 +224,8 @@ def solve_shard(spec, emit):
         rng = rng_for("C18", seed, "solve", rep)
         info = K.SOLVER_INFO[s]
         cs = dict(check="C18", seed=seed, coords=["solve", rep], solver=s, datafit=d, penalty=p_,
-                  storage=str(rng.choice(["dense", "csc"])) if info["sparse"] and not (s == "GroupBCD" and d == "LogisticGroup") else "dense",
+                  storage=str(rng.choice(["dense", "csc", "csc_explicit0"])) if info["sparse"] and not (s == "GroupBCD" and d == "LogisticGroup") else "dense",
+                  density=0.6,
                   fit_intercept=bool(rng.integers(0, 2)), strategy="subdiff", n=int(rng.integers(10, 30)), p=int(rng.integers(3, 10)),
                   knobs=dict(tol=1e-6), alpha_frac=0.1, n_tasks=2, warm=str(rng.choice(["cold", "dense"])))
         case = K.Case(cs)
@@ -333,7 +337,7 @@ def hist_shard(spec, emit):
             q = related[int(rng.integers(0, len(related)))]
             pname = q["estimator"]
             pps = dict(pps, estimator=pname, kwargs=dict(q["kwargs"]), target=q["target"], p=q["p"], storage=q["storage"])
-        if pps["storage"] == "csc" and pname in ("GroupLasso",):
+        if pps["storage"].startswith("csc") and pname in ("GroupLasso",):
             pps["storage"] = "dense"
         rec = dict(id=cid, cell="history->probe|%s" % pname, digest=digest(cid, seed), count=dict(history_ops=len(ops), probes=1),
                    hist={"history_length": len(ops)})
